@@ -221,8 +221,18 @@ TSeq ==
           /\ stats' = ExpiryStats(IncIf(reply'.kind = "replay" /\ ~SameArgs, "same_types_other_arguments"))
           /\ verdict' =
                IF Line.st = "PANIC" THEN "ok"   \* the panic event follows
+               \* The lease of a client is renewed by every SEQUENCE it sends and a
+               \* COMPOUND that is still executing keeps the client alive, so the
+               \* lease runs from the completion of the client's last COMPOUND.  A
+               \* session that was not destroyed and whose client is within its
+               \* lease must be known; if it is not, the server discarded the
+               \* client's opens and locks (closed its files) while its state IDs
+               \* still entitled it to them.
                ELSE IF reply'.kind = "new" THEN
-                 (IF Line.st = "OK" THEN "ok" ELSE "NC:new-request-rejected")
+                 (IF Line.st = "OK" THEN "ok"
+                  ELSE IF Line.st = "BADSESSION" /\ \E r \in oofs' : r.i = sess'[Line.sid].i
+                    THEN "C18:client-state-discarded-although-its-lease-had-not-run-out"
+                  ELSE "NC:new-request-rejected")
                ELSE IF reply'.kind = "wait" THEN "C19:duplicate-of-request-in-flight-did-not-wait"
                ELSE "ok"   \* judged when the COMPOUND ends
 
@@ -509,8 +519,6 @@ ModelLocks == {[f |-> e.f, cid |-> CidOf(e.i), lo |-> e.lo, s |-> e.s, e |-> e.e
 \* with an open file, a lock-owner record per lock-owner with lock state.
 ModelIncs == {[own |-> k[1], ver |-> k[2], cid |-> inc[k].cid, conf |-> inc[k].conf, hold |-> inc[k].hold,
                idle |-> (inc[k].hold = 0),
-               \* (the time stamp of an incarnation that is held is not used)
-               seen |-> IF inc[k].hold = 0 THEN inc[k].seen ELSE 0,
                noo |-> Cardinality({r.oo : r \in {r \in oofs : r.i = k}}),
                nlofs |-> Cardinality({m \in lofs : m.i = k}),
                los |-> {m.lo : m \in {m \in lofs : m.i = k}}] :
@@ -536,7 +544,6 @@ ObsLocksAll == {[f |-> r.f, cid |-> r.cid, lo |-> r.lo, s |-> r.s, e |-> r.e, t 
 \* on the very last byte: it denotes no byte of Bytes, see lastb)
 ObsLocks == {r \in ObsLocksAll : ~(r.s = N /\ r.e = N)}
 ObsIncs == {[own |-> r.own, ver |-> r.ver, cid |-> r.cid, conf |-> r.conf, hold |-> r.hold, idle |-> r.idle,
-             seen |-> IF r.hold = 0 THEN r.seen ELSE 0,
              noo |-> r.noo, nlofs |-> r.nlofs, los |-> Rng(r.los)] : r \in Rng(Line.incs)}
 ObsSess == {[sid |-> r.sid, cid |-> r.cid] : r \in Rng(Line.sess)}
 ObsSlots ==
